@@ -1,7 +1,7 @@
 SPECIFICATION Spec
 CONSTANTS
   MaxToks = 3
-  Level = 1
+  Level = 3
   LevelNext = 1
   Glue = TRUE
   Dump = TRUE
